@@ -121,10 +121,23 @@ def sh(cmd, timeout, cwd=None, env=None, inp=None):
         return 124, out + f"\n[timeout after {timeout}s]"
 
 
+COQ_DIRS = ["Common", "Gen", "Model", "Proofs", "Props"]
+COQ_HEAD = ("-Q . Molli\n-arg -w -arg -notation-overridden,-deprecated-hint-without-locality,"
+            "-deprecated-instance-without-locality,-deprecated-hint-rewrite-without-locality\n\n")
+
+
 def ensure_makefile():
-    mk = os.path.join(COQ, "Makefile")
+    """_CoqProject lists every .v under Common/ Gen/ Model/ Proofs/ Props/ (regenerated when the set
+    changes); Makefile regenerated from it."""
+    files = []
+    for d in COQ_DIRS:
+        dd = os.path.join(COQ, d)
+        if os.path.isdir(dd):
+            files += sorted(f"{d}/{f}" for f in os.listdir(dd) if f.endswith(".v"))
     cp = os.path.join(COQ, "_CoqProject")
-    if (not os.path.exists(mk)) or os.path.getmtime(mk) < os.path.getmtime(cp):
+    changed = write_if_changed(cp, COQ_HEAD + "\n".join(files) + "\n")
+    mk = os.path.join(COQ, "Makefile")
+    if changed or (not os.path.exists(mk)) or os.path.getmtime(mk) < os.path.getmtime(cp):
         rc, out = sh("coq_makefile -f _CoqProject -o Makefile", 60, cwd=COQ)
         if rc != 0:
             raise RuntimeError("coq_makefile failed:\n" + out)
@@ -318,9 +331,13 @@ def run_shards(ctx, rep, tag, header, check_fn, cases, shard=400, timeout=600, c
 # ---------------------------------------------------------------- known findings / verdict
 def load_known():
     p = os.path.join(VERIF, "known_findings.json")
-    if not os.path.exists(p):
-        return []
-    return json.load(open(p))["findings"]
+    out = json.load(open(p))["findings"] if os.path.exists(p) else []
+    d = os.path.join(VERIF, "known_findings.d")      # development staging only; merged before commit
+    if os.path.isdir(d):
+        for fn in sorted(os.listdir(d)):
+            if fn.endswith(".json"):
+                out += json.load(open(os.path.join(d, fn)))["findings"]
+    return out
 
 
 def write_replay(pid, v: Violation, ctx) -> str:
